@@ -33,7 +33,7 @@ def plan(tier):
                     'step index; RealStartProbe clones the node directory and runs the real OnStart/receiveRoutine.')
     p.assumptions = ['process crash model: what was written before the kill is on disk (no power-loss reordering)']
     # a height with more than ten scheduled timeouts in its WAL, then a REAL Start() on a copy of the directory
-    p.scenarios = list(p.scenarios) + ['many_rounds_then_restart', 'lock_survives_restart']
+    p.scenarios = list(p.scenarios) + ['many_rounds_then_restart', 'lock_survives_restart', 'restart_in_height_2']
     return p
 
 
